@@ -18,7 +18,7 @@ Record R12 (s : sys) (m : m12) : Prop := {
   r_h : forall h v, handles s h = Some v -> mh m h = Some v;
   r_dead : forall a x, actors s a = Some x -> (md m a = None <-> m_rx (a_mb x) = true);
   r_send : forall o a, ms m o = Some (a, false) ->
-     exists p x, ops s o = Some p /\ actors s a = Some x /\ op_a p = a /\ op_k p = XSend /\
+     exists p x, ops s o = Some p /\ actors s a = Some x /\ op_a p = a /\ op_k p = XSend /\ op_reg p = None /\
        (op_imm p = None \/ exists e, op_imm p = Some (RErr e)) /\
        (op_imm p = None -> op_w p = true /\ (m_rx (a_mb x) = true -> In (PTask o) (m_queue (a_mb x))));
   r_out : forall a x, actors s a = Some x ->
@@ -146,8 +146,8 @@ Proof.
     + destruct Hmb as (_ & B & _). destruct (B _ _ Ea Hx') as (b & E). rewrite E. cbn [m_rx].
       destruct (Hkeep a (Hnd _ Ea)) as (_ & K2). rewrite K2. destruct (Rnone _ Ea) as (N1 & _). tauto.
   - (* r_send *)
-    intros o a Ho. rewrite Ems in Ho. destruct (Rsend _ _ Ho) as (p & x & Hp & Hx & Pa & Pk & Pi & Pq).
-    destruct (Hops _ _ Hp) as (p' & Hp' & Sk & Sa & Si & Sw & Sd).
+    intros o a Ho. rewrite Ems in Ho. destruct (Rsend _ _ Ho) as (p & x & Hp & Hx & Pa & Pk & Pr & Pi & Pq).
+    destruct (Hops _ _ Hp) as (p' & Hp' & Sk & Sa & Si & Sw & Sd & Sr).
     destruct (mb_step_actor _ _ _ _ _ Hmb Hx) as (x' & Hx' & T).
     exists p', x'. repeat split; try congruence.
     + rewrite Si. exact Pi.
@@ -169,7 +169,7 @@ Proof.
     + destruct (Rout _ _ Ea) as (Nd & Hall). split; [exact Nd|].
       intros o Hin. destruct (Hall _ Hin) as (Hm & Hrx & Hpk & Hq & p & Hp & Hd).
       destruct (mb_step_actor _ _ _ _ _ Hmb Ea) as (x1 & H1 & T). rewrite Hx' in H1. injection H1 as <-.
-      destruct (Hops _ _ Hp) as (p' & Hp' & _ & _ & _ & _ & Sd).
+      destruct (Hops _ _ Hp) as (p' & Hp' & _ & _ & _ & _ & Sd & _).
       rewrite Ems. split; [exact Hm|]. split; [rewrite (mb_tr_rx _ _ _ _ _ _ T D); exact Hrx|].
       split; [|split; [|exists p'; split; auto]].
       * destruct T as [E|w p0 Hn Hs Hr E|p0 Dv E|Dv E].
@@ -258,21 +258,26 @@ Proof.
 Qed.
 
 Lemma step_ret_frame s o r s' : step s (EvRet o r) = Acc s' -> mb_frame s s'.
-Proof. cbn [step]. intros H. inv_res H; norm_gets; subst. fr. Qed.
+Proof.
+  cbn [step]. intros H. apply bind_acc in H. destruct H as (p & Hp & H).
+  destruct (op_reg p) as [[k ty]|]; [eapply frame_reg_ret; eauto|].
+  inv_res H; norm_gets; subst. fr.
+Qed.
 
-Lemma step_ret_inv s o r s' : step s (EvRet o r) = Acc s' ->
-  exists p x r', ops s o = Some p /\ op_done p = false /\ actors s (op_a p) = Some x /\
+Lemma step_ret_inv s o r s' p : step s (EvRet o r) = Acc s' -> ops s o = Some p -> op_reg p = None ->
+  exists x r', op_done p = false /\ actors s (op_a p) = Some x /\
     ret_expect p x o = Some r' /\ rval_eqb r r' = true /\ ops s' o = Some (set_op_done true p).
 Proof.
-  cbn [step]. intros H. inv_res H; norm_gets; subst.
-  exists v, v0, r0. repeat split; auto.
+  cbn [step]. intros H Hp Hr. unfold get_op in H. rewrite Hp in H. cbn [bind] in H. rewrite Hr in H.
+  inv_res H; norm_gets; subst.
+  exists v, r0. repeat split; auto.
   - apply Bool.negb_true_iff. exact Hg.
   - rewrite ops_put_actor, ops_put_op, upd_same. reflexivity.
 Qed.
 
 Lemma submit_spec s a o p w weak k sl htx hftx tm s' :
   ops s o = None -> submit s a o p w weak k sl htx hftx tm = Acc s' ->
-  exists q x, ops s' o = Some q /\ actors s a = Some x /\ op_k q = k /\ op_a q = a /\ op_done q = false /\
+  exists q x, ops s' o = Some q /\ actors s a = Some x /\ op_k q = k /\ op_a q = a /\ op_done q = false /\ op_reg q = None /\
     ((exists e, op_imm q = Some (RErr e)) \/
      (op_imm q = None /\ op_w q = w /\ m_rx (a_mb x) = true /\
       exists x', actors s' a = Some x' /\ a_mb x' = mb_enq w p (a_mb x))).
@@ -287,22 +292,30 @@ Proof.
 Qed.
 
 (** ** one step of the simulation *)
+Lemma step_spawn_inv s a c s' : step s (EvSpawn a c) = Acc s' ->
+  actors s a = None /\ exists x, actors s' a = Some x /\ a_mb x = mkMbox (sc_bound c) [] [] true.
+Proof.
+  cbn [step]. intros H. inv_res H; subst s'; (split; [destruct (actors s a); [discriminate|reflexivity]|]).
+  - eexists. cbn. rewrite upd_same. split; reflexivity.
+  - eexists. cbn. rewrite upd_same. split; reflexivity.
+Qed.
+
 Lemma R12_spawn s a c s' m :
   R12 s m -> step s (EvSpawn a c) = Acc s' ->
   R12 s' (mk12 (upd (mb m) a (sc_bound c)) (mh m) (ms m) (upd (mo m) a []) (md m)).
 Proof.
   intros R Hs.
   assert (R' : R12 s' m) by (eapply R12_default; eauto; discriminate).
-  cbn [step] in Hs. inv_res Hs. destruct (actors s a) eqn:Ea; [discriminate|]. subst s'.
+  destruct (step_spawn_inv _ _ _ _ Hs) as (Ea & x0 & Hx0 & Emb0).
   destruct (r_none _ _ R _ Ea) as (N1 & N2 & N3).
   destruct R' as [Rok Rnone Rbound Rh Rdead Rsend Rout].
   split; auto.
   - intros a2 Ha2. cbn [md mb]. destruct (Nat.eq_dec a2 a) as [->|N].
-    + rewrite actors_put_actor, upd_same in Ha2. discriminate.
+    + congruence.
     + destruct (Rnone _ Ha2) as (M1 & M2 & M3). rewrite (out_of_mk_other _ _ _ _ _ _ _ _ m N eq_refl).
       rewrite upd_other by exact N. auto.
   - intros a2 x n Hx Hb. cbn [mb] in Hb. destruct (upd_cases (mb m) a (sc_bound c) a2) as [[-> E]|[N E]]; rewrite E in Hb.
-    + rewrite actors_put_actor, upd_same in Hx. injection Hx as <-. cbn. congruence.
+    + assert (x = x0) by congruence. subst x. rewrite Emb0. cbn. congruence.
     + eauto.
   - intros a2 x Hx. cbn [ms]. destruct (Nat.eq_dec a2 a) as [->|N].
     + rewrite out_of_mk_same. split; [constructor | intros o []].
@@ -380,7 +393,7 @@ Proof.
     destruct (handles s h) as [[a2 k2]|] eqn:E2; [|discriminate].
     pose proof (r_h _ _ R _ _ E2) as E3. congruence. }
   destruct (is_send_handle_submit _ _ _ _ _ _ _ _ _ Hs Hh Ek) as (Hfresh & weak & htx & hftx & Hsub).
-  destruct (submit_spec _ _ _ _ _ _ _ _ _ _ _ _ Hfresh Hsub) as (q & x0 & Hq & Hx0 & Qk & Qa & Qd & Qi).
+  destruct (submit_spec _ _ _ _ _ _ _ _ _ _ _ _ Hfresh Hsub) as (q & x0 & Hq & Hx0 & Qk & Qa & Qd & Qr & Qi).
   (* [o] is new: it is in nobody's outstanding list *)
   assert (Hnot : forall a2, ~ In o (out_of m a2)).
   { intros a2 Hin. destruct (actors s a2) as [x2|] eqn:E2.
@@ -409,10 +422,10 @@ Proof.
   cbn [m12_step]. destruct (ms m o) as [[a [|]]|] eqn:Eo; eauto.
   destruct (md m a) eqn:Ed; eauto.
   (* the send returns Ok while its target is alive: it joins the outstanding sends *)
-  destruct (step_ret_inv _ _ _ _ Hs) as (p & x & r' & Hp & Hnd & Hx & Hexp & Hr & Hp').
+  destruct (r_send _ _ R _ _ Eo) as (p & x2 & Hp & Hx2 & Pa & Pk & Pr & Pi & Pq).
+  destruct (step_ret_inv _ _ _ _ _ Hs Hp Pr) as (x & r' & Hnd & Hx & Hexp & Hr & Hp').
   apply rval_eqb_eq in Hr. subst r'.
-  destruct (r_send _ _ R _ _ Eo) as (p2 & x2 & Hp2 & Hx2 & Pa & Pk & Pi & Pq).
-  assert (p2 = p) by congruence. subst p2. rewrite Pa in Hx. assert (x2 = x) by congruence. subst x2.
+  rewrite Pa in Hx. assert (x2 = x) by congruence. subst x2.
   assert (Himm : op_imm p = None).
   { destruct Pi as [Pi|[e Pi]]; auto. unfold ret_expect in Hexp. rewrite Pi in Hexp. discriminate. }
   destruct (Pq Himm) as (Pw & Pin).
